@@ -1589,10 +1589,13 @@ Section EqualCorr.
   Lemma dset_equal_resolve s c : Forall (closed_atom t) s -> Forall (closed_atom t) c ->
     set_equal (map (resolve_atom t) s) (map (resolve_atom t) c) = dset_equal s c.
   Proof.
-    intros Hs Hc. unfold set_equal, dset_equal. rewrite !map_length. f_equal.
-    rewrite forallb_map. apply forallb_ext_Forall. eapply Forall_imp; [|exact Hs]. intros a Ha.
-    unfold set_contains. rewrite existsb_map. apply existsb_ext_Forall.
-    eapply Forall_imp; [|exact Hc]. intros b Hb. apply datom_eqb_resolve; assumption.
+    intros Hs Hc. unfold set_equal, dset_equal. rewrite !map_length. f_equal; [f_equal|].
+    - rewrite forallb_map. apply forallb_ext_Forall. eapply Forall_imp; [|exact Hs]. intros a Ha.
+      unfold set_contains. rewrite existsb_map. apply existsb_ext_Forall.
+      eapply Forall_imp; [|exact Hc]. intros b Hb. apply datom_eqb_resolve; assumption.
+    - rewrite forallb_map. apply forallb_ext_Forall. eapply Forall_imp; [|exact Hc]. intros a Ha.
+      unfold set_contains. rewrite existsb_map. apply existsb_ext_Forall.
+      eapply Forall_imp; [|exact Hs]. intros b Hb. apply datom_eqb_resolve; assumption.
   Qed.
 
   Lemma dterm_geqb_resolve a b : closed_term t a -> closed_term t b ->
